@@ -128,7 +128,7 @@ class World:
         self.sched = None
         base = {"disposable": D.Disposable, "boolean": D.BooleanDisposable, "composite": D.CompositeDisposable,
                 "serial": D.SerialDisposable, "mad": D.MultipleAssignmentDisposable, "sad": D.SingleAssignmentDisposable,
-                "refcount": D.RefCountDisposable, "scheduled": D.ScheduledDisposable}[cls]
+                "refcount": D.RefCountDisposable, "scheduled": D.ScheduledDisposable, "nest": D.CompositeDisposable}[cls]
         mk = base
         if traced and cls in TRACED:
             extra = None
@@ -151,6 +151,15 @@ class World:
             self.obj = mk()
         elif cls == "refcount":
             self.obj = mk(self.items[0])
+        elif cls == "nest":
+            # a CompositeDisposable holding one SerialDisposable; leaves are assigned to the serial
+            cm, sm = D.CompositeDisposable, D.SerialDisposable
+            if traced:
+                cm, sm = dc.traced_class(cm, TRACED["composite"]), dc.traced_class(sm, TRACED["serial"])
+            self.serial = sm()
+            self.obj = cm(self.serial)
+            if ctl is not None:
+                ctl.lock_names[id(self.serial.lock)] = 1
         elif cls == "scheduled":
             kind = case.get("sched_kind", "queue")
             if kind == "queue":
@@ -271,6 +280,16 @@ class World:
                 return None
             if k == "dispose":
                 return o.dispose()
+        if cls == "nest":
+            if k == "dispC":
+                return o.dispose()
+            if k == "removeS":
+                return o.remove(self.serial)
+            if k == "dispS":
+                return self.serial.dispose()
+            if k == "setS":
+                self.serial.disposable = self.items[op[1]]
+                return None
         raise ValueError(f"bad op {op} for {cls}")
 
     def flag(self):
@@ -310,6 +329,10 @@ class World:
         if cls in ("serial", "mad", "sad"):
             c = dc.raw(o, "current")
             return {"is_disposed": bool(dc.raw(o, "is_disposed")), "current": None if c is None else c.idx, "cnt": cnt}
+        if cls == "nest":
+            c = dc.raw(self.serial, "current")
+            return {"is_disposed": bool(dc.raw(o, "is_disposed")), "has_serial": any(x is self.serial for x in dc.raw(o, "disposable")),
+                    "serial_disposed": bool(dc.raw(self.serial, "is_disposed")), "current": None if c is None else c.idx, "cnt": cnt}
         if cls == "refcount":
             from reactivex.disposable import RefCountDisposable
 
